@@ -247,7 +247,7 @@ func init() {
 		Run: func(r *R) {
 			checkLockRelease(r, "tars/selector/roundrobin", "tars/selector/random", "tars/selector/modhash", "tars/selector/consistenthash", "tars")
 		}})
-	register(&Rule{ID: "C17.R8", Props: []string{"C17"}, Min: 10, Needs: NeedMain,
+	register(&Rule{ID: "C17.R8", Props: []string{"C17"}, Min: 3, Needs: NeedMain,
 		Doc: "no exit keeps a lock (configuration): as C11.R7, for package conf — a getter that returns early with the read lock held blocks the next reload",
 		Run: func(r *R) { checkLockRelease(r, "tars/util/conf") }})
 }
@@ -554,7 +554,7 @@ func init() {
 							return
 						}
 						for _, f := range facts(j.Block()) {
-							if n, okn := normFact(f); okn && n.Op == token.NEQ && isNilConst(n.Y) && (n.X == ssa.Value(c) || sameValue(n.X, c)) {
+							if n, okn := normFact(f); okn && n.Op == token.NEQ && isNilConst(n.Y) && (n.X == ssa.Value(c) || sameValue(n.X, c) || resolveSpill(n.X) == ssa.Value(c)) {
 								outside = true
 							}
 						}
@@ -571,7 +571,7 @@ func init() {
 			}
 		}})
 
-	register(&Rule{ID: "C15.R9", Props: []string{"C15", "C18"}, Min: 3, Needs: NeedMain,
+	register(&Rule{ID: "C15.R9", Props: []string{"C15", "C18"}, Min: 2, Needs: NeedMain,
 		Doc: "one key for the pending-probe set: every Load/Store/LoadOrStore/Delete on endpointManager.checkAdapterList is keyed by the Key field of an endpoint.Endpoint (the canonical key of C18.R3) — an entry recorded under one spelling of the endpoint and deleted under another (e.g. a key built from the transport name, which is ssl where the canonical one says tcp) is never removed, and the endpoint is never probed again",
 		Run: func(r *R) {
 			sp := r.w.Pkg("tars")
